@@ -246,7 +246,42 @@ def expand(prog: 'object') -> list[str]:
                 (r,) = rv
                 if r in assigned and r not in b:
                     alias[r] = target
-        caller_names = {n.id for n in ast.walk(caller.node) if isinstance(n, ast.Name)}
+        # names of the caller a helper local could interfere with; a name the caller only uses as the variable of a
+        # comprehension (its own scope) cannot be captured
+        comp_only: dict[str, int] = {}
+        allc: dict[str, int] = {}
+        for n in ast.walk(caller.node):
+            if isinstance(n, ast.Name):
+                allc[n.id] = allc.get(n.id, 0) + 1
+        for comp in [c for c in ast.walk(caller.node) if isinstance(c, (ast.ListComp, ast.SetComp, ast.DictComp, ast.GeneratorExp))]:
+            bound = {x.id for g in comp.generators for x in ast.walk(g.target) if isinstance(x, ast.Name)}
+            inner_comps = [c2 for c2 in ast.walk(comp) if c2 is not comp and isinstance(c2, (ast.ListComp, ast.SetComp, ast.DictComp, ast.GeneratorExp))]
+            skip = {id(x) for c2 in inner_comps for x in ast.walk(c2)}
+            for x in ast.walk(comp):
+                if isinstance(x, ast.Name) and x.id in bound and id(x) not in skip:
+                    comp_only[x.id] = comp_only.get(x.id, 0) + 1
+        caller_names = {nm for nm, k in allc.items() if comp_only.get(nm, 0) < k}
+        # likewise a loop variable of the caller that is only read inside its own loop is dead at a call site
+        # outside that loop
+        site_loops = set()
+        for lp in [x for x in ast.walk(caller.node) if isinstance(x, (ast.For, ast.AsyncFor))]:
+            if any(y is call for y in ast.walk(lp)):
+                site_loops |= {x.id for x in ast.walk(lp.target) if isinstance(x, ast.Name)}
+        for nm in list(caller_names):
+            if nm in site_loops:
+                continue
+            loops = [lp for lp in ast.walk(caller.node) if isinstance(lp, (ast.For, ast.AsyncFor)) and any(isinstance(x, ast.Name) and x.id == nm for x in ast.walk(lp.target))]
+            if not loops:
+                continue
+            inside = {id(x) for lp in loops for x in ast.walk(lp)}
+            others = [x for x in ast.walk(caller.node) if isinstance(x, ast.Name) and x.id == nm and id(x) not in inside]
+            comp_ok = comp_only.get(nm, 0)
+            if len(others) <= comp_ok and all(isinstance(x.ctx, (ast.Load, ast.Store)) for x in others):
+                # every occurrence outside the loops is inside a comprehension binding it
+                stray = [x for x in others if not any(any(y is x for y in ast.walk(c)) for c in ast.walk(caller.node)
+                                                      if isinstance(c, (ast.ListComp, ast.SetComp, ast.DictComp, ast.GeneratorExp)))]
+                if not stray:
+                    caller_names.discard(nm)
         mapping: dict[str, ast.expr] = {}
         rename: dict[str, str] = {}
         pre: list[ast.stmt] = []
